@@ -203,12 +203,12 @@ Definition commit_end (d : db) (start : Z) (ws : list wpart) : res Z :=
   end.
 
 Definition write_db (d : db) (start : Z) (ws : list wpart) : db * option err :=
-  if open_conflict d start ws then (d, Some EConflict) else
+  if open_conflict d start ws then (d, Some EValidation) else
   let '(d1, offs) := append_all d ws in
   match commit_end d1 start ws with
   | Err e => (d1, Some e)
   | Ok e => let '(d2, bad) := commit_all d1 start e ws offs in
-            (d2, if bad then Some EConflict else None)
+            (d2, if bad then Some EValidation else None)
   end.
 
 (* ------------------------------------------------------------------ operations *)
